@@ -66,6 +66,7 @@ func c09(r *core.Run) {
 	r.Rule("C09/R2", "escrow-in recorded: in Bid the escrowed coins and the stored Bids.Price depend only on msg.Bid; payer and key ⊵ signer")
 	r.Rule("C09/R3", "no silent overwrite: the Bids write is on committing paths only under Found(bid)=false or after a module->account refund of the loaded bid's price to the signer")
 	r.Rule("C09/R4", "escrow-out consumes: Cancel/Accept pay an amount ⊵ loaded Bids.Price only to the signer and every committing path after the send deletes the bid with the key it was loaded by")
+	r.Rule("C09/R6", "every delete of a Bids record in an rns handler is preceded on all paths by a module->account send of that record's price")
 	r.Rule("C09/R5", "bank errors propagate to a failing return of the handler")
 	hs, err := p.Handlers()
 	if err != nil {
@@ -89,6 +90,34 @@ func c09(r *core.Run) {
 		}
 	}
 	r.Floor("C09/R1", nSites, 8, "rns bank call sites (per handler)")
+	// R6: every delete of a bid record, in any rns handler, follows a payout of that record's price
+	nDelB := 0
+	for _, h := range hs {
+		if h.Module != "rns" {
+			continue
+		}
+		for _, fn := range p.Summary(h.Fn).Funcs {
+			allInstrs(fn, func(in ssa.Instruction) {
+				call, ok := in.(ssa.CallInstruction)
+				if !ok {
+					return
+				}
+				cal, _ := directOpCallee(p, call, "Delete", rnsBids)
+				if cal == nil || cal == fn {
+					return
+				}
+				nDelB++
+				paid := false
+				for _, bo := range p.BankOps(fn) {
+					if bo.Method == "SendCoinsFromModuleToAccount" && onlyStoreField(rnsBids, ".Price")(p.ProvAt(bo.Args[2], "", bo.Instr)) && precedesAlways(fn, bo.Instr, call) {
+						paid = true
+					}
+				}
+				r.Check(paid, "C09/R6", fmt.Sprintf("%s:%s:bid-deleted-only-after-payout", h.Key(), fn.Name()), p.InstrPos(call), "the bid is deleted only after its recorded price has been paid out", "a bid record is deleted on a path that has not paid its escrow out (to the bidder or the seller): the tokens stay in the module account with no bid left to claim them")
+			})
+		}
+	}
+	r.Floor("C09/R6", nDelB, 2, "bid deletions")
 	// R1
 	for _, key := range []string{"rns.MsgRegister", "rns.MsgRegisterName", "rns.MsgBuy"} {
 		h := core.HandlerByKey(hs, key)
